@@ -943,3 +943,182 @@ def c13_threads(X, inputs, nthreads=8, rounds=3):
 
 
 ORACLES.update({"c13": c13, "c13_threads": c13_threads})
+
+
+# ------------------------------------------------------------------ C18
+FAMILIES = {
+    "paren": lambda d: "(" * d + "QQ" + ")" * d + "\n",
+    "list": lambda d: "[" * d + "QQ" + "]" * d + "\n",
+    "dict": lambda d: "{1:" * d + "QQ" + "}" * d + "\n",
+    "set": lambda d: "{" * d + "QQ" + "}" * d + "\n",
+    "call": lambda d: "f(" * d + "QQ" + ")" * d + "\n",
+    "lambda": lambda d: "lambda: " * d + "QQ\n",
+    "subproc": lambda d: "$(" * d + "QQ" + ")" * d + "\n",
+    "pyexpr": lambda d: "$(echo " + "@(" * d + "QQ" + ")" * d + ")\n",
+    "envexpr": lambda d: "${" * d + "QQ" + "}" * d + "\n",
+    "sum": lambda d: "+".join(["1"] * d) + " + QQ\n",
+    "args": lambda d: "f(" + ",".join(["1"] * d) + ", QQ)\n",
+    "stmts": lambda d: "x=1\n" * d + "QQ\n",
+    "ifnest": lambda d: "".join(" " * i + "if x:\n" for i in range(d)) + " " * d + "QQ\n",
+    "comp": lambda d: "[" * d + "QQ" + " for x in y]" * d + "\n",
+    "subscript": lambda d: "a" + "[a" * d + ", QQ" + "]" * d + "\n",
+    "ternary": lambda d: "1 if 1 else " * d + "QQ\n",
+    "not": lambda d: "not " * d + "QQ\n",
+    "unary": lambda d: "-" * d + "QQ\n",
+    "power": lambda d: "1**" * d + "QQ\n",
+    "attr": lambda d: "a" + ".a" * d + ".QQ\n",
+    "strcat": lambda d: "'a' " * d + "QQ\n",
+    "tuple_target": lambda d: "(" * d + "QQ" + ",)" * d + "=1\n",
+    "del": lambda d: "del " + "(" * d + "QQ" + ")" * d + "\n",
+    "with": lambda d: "with " + "(" * d + "QQ" + ")" * d + ": pass\n",
+    "match_seq": lambda d: "match x:\n case " + "[" * d + "QQ" + "]" * d + ": pass\n",
+    "match_class": lambda d: "match x:\n case " + "C(" * d + "QQ" + ")" * d + ": pass\n",
+    "match_or": lambda d: "match x:\n case " + "1 | " * d + "QQ: pass\n",
+    "match_map": lambda d: "match x:\n case " + "{1: " * d + "QQ" + "}" * d + ": pass\n",
+    "decorators": lambda d: "@a\n" * d + "def QQ(): pass\n",
+    "fstring": lambda d: "x = " + " ".join(["f'{a}'"] * d) + " + QQ\n",
+    "call_macro": lambda d: "f!(" + ", ".join(["a b"] * d) + ") + QQ\n",
+    "compare": lambda d: " < ".join(["1"] * d) + " < QQ\n",
+    "bool": lambda d: " and ".join(["a"] * d) + " or QQ\n",
+    "slices": lambda d: "a[" + ", ".join(["1:2"] * d) + ", QQ]\n",
+    "lambda_args": lambda d: "lambda " + ", ".join(f"a{i}" for i in range(d)) + ": QQ\n",
+    "def_args": lambda d: "def f(" + ", ".join(f"a{i}=1" for i in range(d)) + "): QQ\n",
+    "import": lambda d: "from a import " + ", ".join(f"b{i}" for i in range(d)) + ", QQ\n",
+    "global": lambda d: "global " + ", ".join(f"b{i}" for i in range(d)) + ", QQ\n",
+    "try": lambda d: "try:\n pass\n" + "except E:\n pass\n" * d + "else:\n QQ\n",
+    "elif": lambda d: "if a:\n pass\n" + "elif b:\n pass\n" * d + "else:\n QQ\n",
+    "class_nest": lambda d: "".join(" " * i + "class A:\n" for i in range(d)) + " " * d + "QQ\n",
+    "await": lambda d: "await " * 1 + "(" * d + "QQ" + ")" * d + "\n",
+    "star_expr": lambda d: "x = " + ", ".join(["*a"] * d) + ", QQ\n",
+    "dict_items": lambda d: "{" + ", ".join(["1: 2"] * d) + ", 3: QQ}\n",
+    "kwargs": lambda d: "f(" + ", ".join(f"k{i}=1" for i in range(d)) + ", z=QQ)\n",
+    "genexp": lambda d: "f(" * d + "QQ for a in b" + ")" * d + "\n",
+    "help": lambda d: "(" * d + "QQ?" + ")" * d + "\n",
+    "pipe": lambda d: "$(" + " | ".join(["a"] * d) + " | QQ)\n",
+}
+
+
+def measure_work(X, src, mode="exec", limit=None):
+    """(token reads + resets made by a parse, number of tokens, outcome kind)"""
+    counts = [0]
+
+    class CT(X.tokenizer.Tokenizer):
+        def getnext(self):
+            counts[0] += 1
+            return super().getnext()
+
+        def peek(self):
+            counts[0] += 1
+            if limit is not None and counts[0] > limit:
+                raise O._Timeout()
+            return super().peek()
+
+        def reset(self, i):
+            counts[0] += 1
+            return super().reset(i)
+    tz = CT(X.tokenize.generate_tokens(io.StringIO(src).readline))
+    p = X.parser.XonshParser(tz)
+    tl = O.time_limit(60.0)
+    kind = "HANG"
+    with tl:
+        try:
+            p.parse(mode if mode == "eval" else "file")
+            kind = "ok"
+        except RecursionError:
+            kind = "RecursionError"
+        except O._Timeout:
+            raise
+        except Exception as e:  # noqa: BLE001
+            kind = O.classify(e, X)
+    return counts[0], len(tz._tokens), kind
+
+
+def substitute_marker(text, repl):
+    i = text.index("QQ")
+    return text[:i] + repl + text[i + 2:]
+
+
+def growth_violation(ws, slack=300):
+    """ws = [W(s), W(2s), W(4s)]: work increments may at most double (up to a constant)"""
+    w1, w2, w4 = ws
+    if w4 - w2 > 2.5 * (w2 - w1) + slack or w4 > 4.6 * w1 + 4 * slack:
+        return f"W(s), W(2s), W(4s) = {ws}: increments {w2 - w1} -> {w4 - w2}"
+    return None
+
+
+def first_pass_work(X, src, mode="exec", limit=None):
+    """work of the first pass alone (the start rule called directly, invalid_* rules disabled)"""
+    counts = [0]
+
+    class CT(X.tokenizer.Tokenizer):
+        def getnext(self):
+            counts[0] += 1
+            return super().getnext()
+
+        def peek(self):
+            counts[0] += 1
+            if limit is not None and counts[0] > limit:
+                raise O._Timeout()
+            return super().peek()
+
+        def reset(self, i):
+            counts[0] += 1
+            return super().reset(i)
+    tz = CT(X.tokenize.generate_tokens(io.StringIO(src).readline))
+    p = X.parser.XonshParser(tz)
+    p.call_invalid_rules = False
+    with O.time_limit(60.0):
+        try:
+            getattr(p, mode if mode == "eval" else "file")()
+        except O._Timeout:
+            raise
+        except Exception:  # noqa: BLE001
+            pass
+    return counts[0]
+
+
+def c18(X, family, repl, where, sizes):
+    """family input at three sizes with the innermost atom (where='inner') or a token appended at the end (where='last') replaced by repl"""
+    ws, firsts, kinds = [], [], []
+    srcs = []
+    for d in sizes:
+        text = FAMILIES[family](d)
+        if where == "inner":
+            src = substitute_marker(text, repl)
+        else:
+            body = substitute_marker(text, "QQ")
+            src = body.rstrip("\n") + " " + repl + "\n"
+        srcs.append(src)
+    v = None
+    for d, src in zip(sizes, srcs):
+        lim = 3000 * (len(src) + 50)
+        try:
+            w, n, kind = measure_work(X, src, limit=lim)
+        except O._Timeout:
+            v = {"kind": "work-exceeds-budget", "observed": f"size {d}: more than {lim} token operations", "expected": "linear work", "source": src[:120]}
+            break
+        if kind == "HANG":
+            v = {"kind": "work-exceeds-budget", "observed": f"size {d}: wall-clock limit", "expected": "linear work", "source": src[:120]}
+            break
+        ws.append(w)
+        kinds.append(kind)
+    if v is None:
+        g = growth_violation(ws)
+        if g:
+            v = {"kind": "superlinear-work", "observed": g, "expected": "W(4s)-W(2s) <= 2.5 (W(2s)-W(s)) + c"}
+    if v is None:
+        return None
+    v.update({"family": family, "replacement": repl, "where": where})
+    # is the growth confined to the diagnostic second pass of a rejected input?
+    try:
+        fw = [first_pass_work(X, src, limit=3000 * (len(src) + 50)) for src in srcs]
+        rejected = O.run_parse(X, srcs[0], "exec")[0] in ("SyntaxError", "IndentationError")
+        if rejected and growth_violation(fw) is None:
+            v["feature"] = "diagnostic-second-pass"
+            v["first_pass_work"] = fw
+    except O._Timeout:
+        pass
+    return v
+
+
+ORACLES.update({"c18": c18})
